@@ -349,6 +349,36 @@ theorem index_ops_commute (env1 env2 : Env) (op1 op2 : IOp) (fs : FS) (h : Healt
   · rw [a2]; simp only [cSpecRun, cSpecStep]; rw [c3]
   · rw [b1, b2]; simp only [cSpecRun, cSpecStep]; rw [c1]
 
+/-- Writing bytes whose address already holds exactly these bytes is a no-op on the abstract store. -/
+theorem sSpecStep_put_present (m : AbsStore) (fl : Flavour) (o : WriteOpts) (chunks : List Bytes)
+    (hp : m (o.algo.getD .sha256) (Bytes.hex (cfg.H (o.algo.getD .sha256) chunks.flatten)) = some chunks.flatten) :
+    (sSpecStep cfg m (.put fl o chunks)).1 = m := by
+  simp only [sSpecStep]
+  funext a' h'
+  unfold AbsStore.set
+  by_cases e : a' = o.algo.getD .sha256 ∧ h' = Bytes.hex (cfg.H (o.algo.getD .sha256) chunks.flatten)
+  · rw [if_pos e, e.1, e.2, hp]
+  · rw [if_neg e]
+
+/-- **Identical data is stored once, whenever it is written again**: on a healthy store whose
+address for these bytes already holds them (written by any earlier call of any flavour, however
+chunked, any number of operations ago), a by-address write of the same bytes — any flavour, any
+chunking — leaves the abstract store (every address → bytes) exactly as it was, keeps the store
+healthy, and answers what the abstract write answers. -/
+theorem rewrite_is_noop (env : Env) (fl : Flavour) (o : WriteOpts) (chunks : List Bytes) (fs : FS)
+    (h : HealthyStore cfg cache fs) (hl : HexLen cfg)
+    (hp : absStore cache fs (o.algo.getD .sha256)
+      (Bytes.hex (cfg.H (o.algo.getD .sha256) chunks.flatten)) = some chunks.flatten) :
+    absStore cache (sRunOps cfg cache [(env, .put fl o chunks)] fs).2 = absStore cache fs ∧
+    HealthyStore cfg cache (sRunOps cfg cache [(env, .put fl o chunks)] fs).2 ∧
+    (sRunOps cfg cache [(env, .put fl o chunks)] fs).1 = [.wrote (putAnswer cfg o chunks.flatten)] := by
+  obtain ⟨a1, b1, c1⟩ := store_refines_map cfg cache [(env, .put fl o chunks)] fs h hl
+  refine ⟨?_, c1, ?_⟩
+  · rw [b1]
+    show (sSpecStep cfg (absStore cache fs) (.put fl o chunks)).1 = _
+    exact sSpecStep_put_present cfg _ fl o chunks hp
+  · rw [a1]; rfl
+
 namespace AxiomCheckSpecLaws
 open Cacache.SpecLaws
 #print axioms removeFullySpec_idem
@@ -361,6 +391,7 @@ open Cacache.SpecLaws
 #print axioms reads_invisible
 #print axioms specStep_comm
 #print axioms index_ops_commute
+#print axioms rewrite_is_noop
 end AxiomCheckSpecLaws
 
 end Cacache.SpecLaws
